@@ -928,3 +928,93 @@ Section Maximise.
         unfold mloop. cbn [distribute_loop]. fold mstep. rewrite (mstep_none_nonpos _ _ Hd). reflexivity.
   Qed.
 End Maximise.
+
+(* ---- maximise_tracks and a track whose limit equals its base size *)
+Lemma Forall2_nth {A B} (P : A -> B -> Prop) l l' i x :
+  Forall2 P l l' -> nth_error l i = Some x -> exists y, nth_error l' i = Some y /\ P x y.
+Proof.
+  intro Hf. revert i. induction Hf as [|a b l l' Hab Hl IH]; intros i Hi.
+  - destruct i; discriminate.
+  - destruct i as [|i]; simpl in *.
+    + inversion Hi; subst. eauto.
+    + apply IH. exact Hi.
+Qed.
+
+Lemma G_le_length inner tracks : (G inner tracks <= length tracks)%nat.
+Proof. unfold G. induction tracks as [|a l IH]; simpl; [lia|]. destruct (mgrow inner a); simpl; lia. Qed.
+
+Lemma maximise_unfold inner avail tracks :
+  maximise_tracks inner avail tracks =
+  let free := compute_free_space avail (@fsum XQ _ (map base_size tracks)) in
+  if x_eqb free PInf then map (fun t => set_base t (growth_limit t)) tracks
+  else if x_ltb (Fin 0) free then flush_incurred_to_base (snd (mloop inner (distribute_fuel tracks) free tracks))
+  else tracks.
+Proof.
+  unfold maximise_tracks, distribute_space_up_to_limits, mloop. xq0. cbv zeta.
+  destruct (x_eqb _ PInf); [reflexivity|]. destruct (x_ltb (Fin 0) _); [|reflexivity].
+  change (fit_content_limited_growth_limit inner) with (mlim inner).
+  change (fun _ : track XQ => true) with all_aff. change (fun _ : track XQ => Fin 1) with prop1.
+  destruct (distribute_loop all_aff prop1 base_size (mlim inner) (distribute_fuel tracks) _ tracks). reflexivity.
+Qed.
+
+Definition fixed_like (t : track XQ) : Prop :=
+  growth_limit t = base_size t /\ is_fit_content (maxf t) = false /\ finite (base_size t) /\ incurred t = Fin 0.
+
+Lemma fixed_like_tfin inner t : fixed_like t -> tfin inner t /\ slack inner t == T_q.
+Proof.
+  intros [Hg [Hfc [Hb Hi]]]. destruct (fin_inv _ Hb) as [b Eb].
+  assert (El : mlim inner t = Fin b).
+  { unfold mlim, fit_content_limited_growth_limit, fit_content_limit. rewrite Hg, Eb.
+    destruct (maxf t); try discriminate Hfc; reflexivity. }
+  split.
+  - unfold tfin. rewrite Eb, El, Hi. simpl. auto.
+  - unfold slack. rewrite Eb, El. simpl. pose proof T_q_pos. rewrite Q.max_r; lra.
+Qed.
+
+Theorem maximise_fixed_bound inner avail tracks i t :
+  Forall (tok inner) tracks -> nth_error tracks i = Some t -> fixed_like t ->
+  exists t', nth_error (maximise_tracks inner avail tracks) i = Some t' /\ finite (base_size t') /\
+             val (base_size t) <= val (base_size t') <= val (base_size t) + inject_Z (Z.of_nat (G inner tracks + 1)) * T_q.
+Proof.
+  intros Hok Hi Hfx. destruct (fixed_like_tfin inner t Hfx) as [Htf Hsl].
+  destruct Hfx as [Hg [Hfc [Hb Hinc]]]. destruct (fin_inv _ Hb) as [b Eb].
+  assert (Hnn : 0 <= inject_Z (Z.of_nat (G inner tracks + 1)) * T_q).
+  { pose proof T_q_pos. assert (0 <= inject_Z (Z.of_nat (G inner tracks + 1))) by (change 0 with (inject_Z 0); rewrite <- Zle_Qle; lia). nra. }
+  rewrite maximise_unfold. cbv zeta.
+  destruct (x_eqb _ PInf) eqn:Einf.
+  - exists (set_base t (growth_limit t)). split; [apply (map_nth_error (fun t => set_base t (growth_limit t)) _ _ Hi)|]. simpl. rewrite Hg, Eb. simpl. split; [exact I|lra].
+  - destruct (compute_free_space avail _) as [sp| | |] eqn:Efree; simpl x_ltb; cbv iota;
+      try (exists t; split; [exact Hi|]; rewrite Eb; simpl; split; [exact I|lra]).
+    + destruct (negb (Qle_bool sp 0)); [|exists t; split; [exact Hi|]; rewrite Eb; simpl; split; [exact I|lra]].
+      rewrite (mloop_terminates inner (G inner tracks) sp tracks (distribute_fuel tracks) Hok (le_n _)).
+      * destruct (Forall2_nth _ _ _ i t (mloop_bounded inner (G inner tracks + 1) (Fin sp) tracks) Hi) as [t1 [E1 [Hu Hbd]]].
+        destruct (Hbd Htf) as [F1 F2]. destruct (fin_inv _ F1) as [i1 Ei1].
+        exists (set_incurred (set_base t1 (x_add (base_size t1) (incurred t1))) (Fin 0)). split.
+        -- unfold flush_incurred_to_base. exact (map_nth_error (fun t : track XQ => set_incurred (set_base t (add (base_size t) (incurred t))) zero) _ _ E1).
+        -- cbn [base_size set_incurred set_base]. rewrite (upd_base _ _ Hu), Eb, Ei1. simpl.
+           rewrite Ei1, Hinc, Hsl in F2. simpl in F2. split; [exact I|lra].
+      * unfold distribute_fuel. pose proof (G_le_length inner tracks). lia.
+    + simpl in Einf. discriminate.
+Qed.
+
+(* exactness when no track of the call can grow *)
+Theorem maximise_no_growable inner avail tracks i t :
+  nth_error tracks i = Some t -> G inner tracks = 0%nat -> compute_free_space avail (@fsum XQ _ (map base_size tracks)) <> PInf ->
+  finite (base_size t) -> incurred t = Fin 0 ->
+  exists t', nth_error (maximise_tracks inner avail tracks) i = Some t' /\ xeq (base_size t') (base_size t).
+Proof.
+  intros Hi Hg0 Hninf Hb Hinc. destruct (fin_inv _ Hb) as [b Eb].
+  rewrite maximise_unfold. cbv zeta.
+  destruct (x_eqb _ PInf) eqn:Einf.
+  - exfalso. apply Hninf. destruct (compute_free_space avail _); simpl in Einf; try discriminate. reflexivity.
+  - destruct (x_ltb (Fin 0) _).
+    + assert (El : mloop inner (distribute_fuel tracks) (compute_free_space avail (fsum (map base_size tracks))) tracks
+                   = (compute_free_space avail (fsum (map base_size tracks)), tracks)).
+      { unfold distribute_fuel. destruct (2 * length tracks + 8)%nat as [|f] eqn:Ef; [reflexivity|].
+        unfold mloop. cbn [distribute_loop]. fold (mstep inner). rewrite (mstep_none_G0 inner _ _ Hg0). reflexivity. }
+      rewrite El. simpl snd.
+      exists (set_incurred (set_base t (x_add (base_size t) (incurred t))) (Fin 0)). split.
+      * unfold flush_incurred_to_base. exact (map_nth_error (fun t : track XQ => set_incurred (set_base t (add (base_size t) (incurred t))) zero) _ _ Hi).
+      * cbn [base_size set_incurred set_base]. rewrite Eb, Hinc. simpl. lra.
+    + exists t. split; [exact Hi|]. rewrite Eb. simpl. reflexivity.
+Qed.
